@@ -356,7 +356,7 @@ def mixed_sequences(res, rng, n_seq, max_len):
             res.sample({"mixed_sequence": [list(map(str, h)) for h in history[:10]]})
 
 
-def plan(tier, seed):
+def _plan_core(tier, seed):
     specs = []
     if tier == "quick":
         k = 4
@@ -380,6 +380,11 @@ def plan(tier, seed):
 
 
 def run_shard(spec_, res):
+    if spec_.get("part") == "soak":
+        from .. import soak
+        for s_ in spec_["soak_seeds"]:
+            soak.run(res, s_, spec_["tier"], PROPERTY, SOAK_KINDS, spec_["steps"])
+        return
     rng = random.Random(spec_["seed"])
     monitors.install()  # ambient contract on Project.connect as well
     if spec_["part"] == "bfs":
@@ -414,3 +419,16 @@ def replay(case, res):
             if not step(res, p, foreign, op(F), op(T), form, {"n": n, "replayed": "history"}):
                 return
         step(res, p, foreign, op(case["F"]), op(case["T"]), case["api"], {"n": n, "replayed": "final op"})
+
+
+# ------------------------------------------------------------------ soak slice (rvmon.soak): long mixed histories on a pool of objects
+SOAK_KINDS = ['structure']
+
+
+def plan(tier, seed):
+    specs = _plan_core(tier, seed)
+    k = 2 if tier == "quick" else 8
+    for i in range(k):
+        specs.append({"tier": tier, "part": "soak", "soak_seeds": [seed * 100003 + 1000 * i + j for j in range(8 if tier == "quick" else 40)],
+                      "steps": 150 if tier == "quick" else 300, "seed": seed, "shard": 1000 + i})
+    return specs
